@@ -153,15 +153,20 @@ def _replay(ctx, cases, label):
     sample = [t for t in touts if t["why"] == "sample"]
     ctx.log("%s: %d cases replayed, %d matched the model, %d divergent, %d match a behaviour the model's monitor flags"
             % (label, res.get("evaluations", 0), ex.get("matched", 0), ex.get("divergent", 0), ex.get("flagged_by_model_monitor", 0)))
-    # every divergent real trace must be judged: pick one representative per (config, expected event, observed event)
-    reps, seen = [], set()
+    # every divergent real trace must be judged by the monitor (the same expected/observed pair can be harmless in
+    # one run and a violation in another): all of them up to a cap, one representative per (config, expected
+    # event, observed event) first; what cannot be judged makes the run inconclusive (exit 2), never green
+    reps, rest, seen = [], [], set()
     for t in div:
         k = (t["cfg"], json.dumps(t.get("want"), sort_keys=True), json.dumps(t.get("got"), sort_keys=True))
         if k not in seen:
             seen.add(k)
             reps.append(t)
-    cap = ctx.pick(150, 600)
-    unjudged = max(0, len(reps) - cap) + max(0, ex.get("divergent", 0) - len(div))
+        else:
+            rest.append(t)
+    cap = ctx.pick(400, 2500)
+    chosen = (reps + rest)[:cap]
+    unjudged = ex.get("divergent", 0) - len(chosen)
     # real runs equal to a model behaviour that the model's own monitor flags (none while TLC holds the invariants)
     fl, fseen = [], set()
     for t in flagged:
@@ -169,7 +174,7 @@ def _replay(ctx, cases, label):
         if k not in fseen:
             fseen.add(k)
             fl.append(t)
-    _judge(ctx, sample + reps[:cap] + fl, label)
+    _judge(ctx, sample + chosen + fl, label)
     if div:
         ctx.notes.append("%s: %d real runs differ from the transcription's prediction (%d distinct kinds, first: cfg=%s script=%s want=%s got=%s); "
                          "they were judged by the monitor directly" % (label, ex.get("divergent", 0), len(reps), div[0]["cfg"], div[0]["script"],
